@@ -28,10 +28,19 @@ class PW:
 
 
 class SumDelta:
-    """SUM fam(new) - SUM fam(old) == delta, touched keys `keys` (z3 key terms, pairwise distinct)"""
+    """SUM fam_new(new) - SUM fam(old) == delta, touched keys `keys` (z3 key terms; may alias).
+    fam_new defaults to fam (the same family evaluated on two heaps)."""
 
-    def __init__(self, name, fam, keys, delta, old=None, new=None):
+    def __init__(self, name, fam, keys, delta, old=None, new=None, fam_new=None):
         self.name, self.fam, self.keys, self.delta, self.old, self.new = name, fam, keys, delta, old, new
+        self.fam_new = fam_new or fam
+
+
+class SumZero:
+    """SUM fam(heap) == 0 because every term is 0"""
+
+    def __init__(self, name, fam, heap=None):
+        self.name, self.fam, self.heap_ = name, fam, heap
 
 
 class SumCongr:
@@ -93,7 +102,7 @@ def prove_clause(I, prefix, cl, kind="vc"):
         keys = list(cl.keys)
         k = I.skolem()
         hyp = z3.And(*[k != x for x in keys]) if keys else TRUE
-        fr = cl.fam.term(I, new, k) == cl.fam.term(I, old, k)
+        fr = cl.fam_new.term(I, new, k) == cl.fam.term(I, old, k)
         # k differs from every touched key: rewrite the equalities the map stores introduced
         subs = []
         for x in keys:
@@ -104,18 +113,25 @@ def prove_clause(I, prefix, cl, kind="vc"):
                             detail="lemma sum_update_fin: pointwise frame outside touched keys"))
         tot = z3.RealVal(0)
         for i, x in enumerate(keys):
-            d = cl.fam.term(I, new, x) - cl.fam.term(I, old, x)
+            d = cl.fam_new.term(I, new, x) - cl.fam.term(I, old, x)
             if i:      # touched keys may alias: each distinct key is counted once
                 d = z3.If(z3.Or(*[x == y for y in keys[:i]]), z3.RealVal(0), d)
             tot = tot + d
         out.append(I.oblige(prefix + cl.name + "::delta", tot == cl.delta, kind=kind, known=known,
                             detail="lemma sum_update_fin: finite delta over touched keys"))
-        concl = ghost.gsum(I, cl.fam, new) == ghost.gsum(I, cl.fam, old) + cl.delta
+        concl = ghost.gsum(I, cl.fam_new, new) == ghost.gsum(I, cl.fam, old) + cl.delta
         if all(o.verdict == "unsat" for o in out):
             I.assume(concl)
         elif all(o.verdict in ("unsat", "known") for o in out):
             I.assume(z3.Or(z3.Or(*[r for _, r in known]), concl))
         return out
+    if isinstance(cl, SumZero):
+        k = I.skolem()
+        h = cl.heap_ if cl.heap_ is not None else I.heap
+        ob = I.oblige(prefix + cl.name, cl.fam.term(I, h, k) == 0, kind=kind, detail="every term of the family is 0")
+        if ob.verdict == "unsat":
+            I.assume(ghost.gsum(I, cl.fam, h) == 0)
+        return [ob]
     if isinstance(cl, SumCongr):
         k = I.skolem()
         hA = cl.heapA if cl.heapA is not None else I.heap
@@ -139,7 +155,7 @@ def control_clause(I, prefix, cl):
         new = cl.new if cl.new is not None else I.heap
         tot = z3.RealVal(0)
         for i, x in enumerate(cl.keys):
-            d = cl.fam.term(I, new, x) - cl.fam.term(I, cl.old, x)
+            d = cl.fam_new.term(I, new, x) - cl.fam.term(I, cl.old, x)
             if i:
                 d = z3.If(z3.Or(*[x == y for y in cl.keys[:i]]), z3.RealVal(0), d)
             tot = tot + d
@@ -158,7 +174,9 @@ def assume_clause(I, cl):
         I.assume_pw(cl.fn)
     elif isinstance(cl, SumDelta):
         new = cl.new if cl.new is not None else I.heap
-        I.assume(ghost.gsum(I, cl.fam, new) == ghost.gsum(I, cl.fam, cl.old) + cl.delta)
+        I.assume(ghost.gsum(I, cl.fam_new, new) == ghost.gsum(I, cl.fam, cl.old) + cl.delta)
+    elif isinstance(cl, SumZero):
+        I.assume(ghost.gsum(I, cl.fam, cl.heap_ if cl.heap_ is not None else I.heap) == 0)
     elif isinstance(cl, SumCongr):
         hA = cl.heapA if cl.heapA is not None else I.heap
         hB = cl.heapB if cl.heapB is not None else I.heap
@@ -251,7 +269,11 @@ class Contract:
         for cl in self.requires(c):
             prove_clause(I, "%s::call[%s]::requires::" % (caller, self.qual), cl, kind="callsite")
         c.old = I.snapshot()
-        for typ, spec in self.raises(c).items():
+        I.trace.append(("call", self.qual))
+        specs = raise_specs(self.raises(c))
+        for typ, spec in specs:
+            if spec.get("late"):
+                continue
             when = spec["when"]
             if I.branch(when):
                 for loc in spec.get("modifies", []):
@@ -263,11 +285,33 @@ class Contract:
         self.havoc(c)
         c.result = self.result(c)
         c.new = I.snapshot()
+        for typ, spec in specs:
+            # exits that depend on the state the call itself produces (checked after the effects)
+            if spec.get("late") and I.branch(spec["when"]()):
+                for cl in spec.get("post", []):
+                    assume_clause(I, cl)
+                I.trace.append(("raise", self.qual, typ))
+                raise PyRaise(typ, self.qual)
         for cl in self.hints(c):
             assume_clause(I, cl)
         for cl in self.ensures(c):
             assume_clause(I, cl)
         return c.result
+
+
+def raise_specs(r):
+    """normalise `raises`: {type: spec | [spec, ...]} -> [(type, spec), ...]"""
+    out = []
+    for typ, sp in r.items():
+        for x in (sp if isinstance(sp, list) else [sp]):
+            out.append((typ, x))
+    return out
+
+
+def _when(spec):
+    w = spec["when"]
+    w = w() if callable(w) else w
+    return z3.BoolVal(w) if isinstance(w, bool) else w
 
 
 def havoc_loc(I, loc):
@@ -384,10 +428,12 @@ def verify(con, registry, opts=None, initial=None):
         c.new = I.snapshot()
         for cl in con.hints(c):
             prove_clause(I, pfx + "lemma::", cl)
+        specs = raise_specs(exc_specs)
         if outcome == "return":
-            for typ, spec in exc_specs.items():
-                I.oblige(pfx + "raises::%s::complete" % typ, z3.Not(spec["when"]) if not isinstance(spec["when"], bool)
-                         else (not spec["when"]), detail="no normally-returning path satisfies the raise condition")
+            for i, (typ, spec) in enumerate(specs):
+                tag = typ if len([1 for t, _ in specs if t == typ]) == 1 else "%s#%d" % (typ, i)
+                I.oblige(pfx + "raises::%s::complete" % tag, z3.Not(_when(spec)),
+                         detail="no normally-returning path satisfies the raise condition")
             for cl in con.ensures(c):
                 prove_clause(I, pfx + "ensures::", cl)
             allowed = modset(con.modifies(c))
@@ -396,16 +442,19 @@ def verify(con, registry, opts=None, initial=None):
                 control_clause(I, pfx + "control::", cl)
         else:
             typ = c.exc.typ
-            if typ not in exc_specs:
+            mine = [(i, sp) for i, (t, sp) in enumerate(specs) if t == typ]
+            if not mine:
                 I.oblige(pfx + "raises::unexpected[%s]" % typ, FALSE,
                          detail="exception type not listed in `raises` must be unreachable (origin %s)" % c.exc.origin)
             else:
-                spec = exc_specs[typ]
-                I.oblige(pfx + "raises::%s::sound" % typ, spec["when"] if not isinstance(spec["when"], bool)
-                         else z3.BoolVal(spec["when"]), detail="origin %s" % c.exc.origin)
-                for cl in spec.get("post", []):
-                    prove_clause(I, pfx + "raises::%s::post::" % typ, cl)
-                check_frame(I, pfx + "raises::%s::" % typ, modset(spec.get("modifies", [])))
+                I.oblige(pfx + "raises::%s::sound" % typ, z3.Or(*[_when(sp) for _, sp in mine]), detail="origin %s" % c.exc.origin)
+                for i, sp in mine:
+                    tag = typ if len(mine) == 1 else "%s#%d" % (typ, i)
+                    if len(mine) == 1 or I.branch(_when(sp)):
+                        for cl in sp.get("post", []):
+                            prove_clause(I, pfx + "raises::%s::post::" % tag, cl)
+                        check_frame(I, pfx + "raises::%s::" % tag, modset(sp.get("modifies", [])))
+                        break
         return outcome
 
     results = explore(run, registry, opts, initial=initial)
